@@ -36,14 +36,23 @@ def p_find(q):
     return {"k": "find_types", "q": q}
 
 
+P_RESET = {"k": "reset"}
+
+
 # ------------------------------------------------------------------ impl
 def run_forced(a, sched_cls=Scheduler):
     """Run the threads of `a` on one hooked real context under the schedule."""
     realm = L.Realm(a["universe"])
     try:
-        realm.set_world(a["loaded"], a["mods"])
         sch = sched_cls()
-        ctx = hooked_context(sch, realm.pkg, warm=a["warm"])
+        if a["warm_mods"] is not None:
+            # the index was built while len(sys.modules) had this value
+            realm.set_world(a["loaded"], a["warm_mods"])
+            ctx = hooked_context(sch, realm.pkg, warm=True)
+            realm.set_world(a["loaded"], a["mods"])
+        else:
+            realm.set_world(a["loaded"], a["mods"])
+            ctx = hooked_context(sch, realm.pkg)
         fns = [(lambda p=p: realm.call(ctx, p)) for p in a["progs"]]
         res = sch.run(fns, a["schedule"])
         outs = []
@@ -72,40 +81,63 @@ def interleavings(n0, n1):
         yield s
 
 
-def base(universe, progs, schedule, warm=False, mods=0):
-    return {"universe": universe, "loaded": len(universe), "mods": mods, "warm": warm, "progs": progs, "schedule": schedule}
+def base(universe, progs, schedule, warm=False, mods=0, warm_mods=None):
+    if warm:
+        warm_mods = mods
+    return {"universe": universe, "loaded": len(universe), "mods": mods, "warm_mods": warm_mods, "progs": progs, "schedule": schedule}
 
 
-# the model's counterexample schedule: thread 1 passes the staleness check,
-# thread 0 rebuilds completely and stamps, thread 1 clears, thread 0 looks up
-def race_schedule(n_indexed):
-    return [1] + [0] * (n_indexed + 3) + [1] + [0, 0]
+# the schedule that broke the code before 556b985 (thread 1 passes the staleness
+# check, thread 0 rebuilds completely and stamps, thread 1 goes on, thread 0 looks
+# up), in the step list of the repaired code (n = number of binding classes)
+def race_schedule(n_binding):
+    return [1] + [0] * (n_binding + 3) + [1] * (n_binding + 1) + [0, 0]
+
+
+# reset() racing with a lookup on a warm context: the lookup passes the
+# staleness check, reset runs completely, the lookup reads the cleared index
+RESET_VS_LOOKUP = [0, 1, 1, 1, 0]
+# reset() racing with build: the class is found in the cache, reset clears the
+# cache, `self.cache[clazz]` raises KeyError
+RESET_VS_BUILD = [0, 0, 0, 2, 1, 2]
 
 
 def gen_conc(rng, tier):
-    # 1. hand-picked: the race, and the same threads on a warm context
-    yield base(U_ONE, [p_find("{urn:a}PA"), p_find("{urn:a}PA")], race_schedule(1))
-    yield base(U_ONE, [p_find("{urn:a}PA"), p_find("{urn:a}PA")], race_schedule(1), warm=True)
-    yield base(U_TWO, [p_find("{urn:a}PA"), p_find("Nope")], race_schedule(2))
+    FIND = p_find("{urn:a}PA")
+    # 1. hand-picked: the former race (cold, stale, warm), reset races
+    yield base(U_ONE, [FIND, FIND], race_schedule(1))
+    yield base(U_ONE, [FIND, FIND], race_schedule(1), warm=True)
+    yield base(U_ONE, [FIND, FIND], race_schedule(1), mods=1, warm_mods=0)
+    yield base(U_TWO, [FIND, p_find("Nope")], race_schedule(3))
     yield base(U_TWO, [p_build(0, "urn:a"), p_build(0, "urn:a")], [0, 1, 0, 1, 0, 1])
     yield base(U_TWO, [p_build(0, "urn:a"), p_build(0, "urn:b")], [0, 1, 0, 1, 0, 1])
+    yield base(U_ONE, [FIND, P_RESET], RESET_VS_LOOKUP, warm=True)
+    yield base(U_ONE, [p_build(0), P_RESET, p_build(0)], RESET_VS_BUILD)
     # 2. bounded-exhaustive: all interleavings of two threads
-    #    cold lookup x cold lookup over one indexed class (6 x 6 steps)
+    #    cold lookup x cold lookup over one binding class (6 x 6 steps)
     stride = 1 if tier != "quick" else 3
     for i, s in enumerate(interleavings(6, 6)):
         if i % stride == 0:
-            yield base(U_ONE, [p_find("{urn:a}PA"), p_find("{urn:a}PA")], s)
+            yield base(U_ONE, [FIND, FIND], s)
+        if i % (stride * 4) == 1:
+            yield base(U_ONE, [FIND, FIND], s, mods=2, warm_mods=1)  # stale index
     #    build x build of the same class (3 x 3 steps), same and different parent
     for s in interleavings(3, 3):
         yield base(U_TWO, [p_build(0, "urn:a"), p_build(0, "urn:a")], s)
         yield base(U_TWO, [p_build(0, "urn:a"), p_build(0, "urn:b")], s)
         yield base(U_TWO, [p_build(1), p_build(9)], s)
-    #    build x cold lookup (3 x 7 steps)
-    for s in interleavings(3, 7):
-        yield base(U_TWO, [p_build(1), p_find("{urn:a}PA")], s)
-    #    warm context: lookup x lookup (3 x 3), stale stamp (mods changed after warm-up is cold again)
+    #    build x cold lookup (3 x 8 steps)
+    for s in interleavings(3, 8):
+        yield base(U_TWO, [p_build(1), FIND], s)
+    #    warm context: lookup x lookup (3 x 3)
     for s in interleavings(3, 3):
-        yield base(U_TWO, [p_find("{urn:a}PA"), p_find("Nope")], s, warm=True)
+        yield base(U_TWO, [FIND, p_find("Nope")], s, warm=True)
+    #    reset x warm lookup (3 x 3), reset x cold lookup (3 x 6), reset x build (3 x 3)
+    for s in interleavings(3, 3):
+        yield base(U_ONE, [P_RESET, FIND], s, warm=True)
+        yield base(U_ONE, [P_RESET, p_build(0)], s)
+    for s in interleavings(3, 6):
+        yield base(U_ONE, [P_RESET, FIND], s)
     # 3. random: 2-5 threads, random universes, random schedules
     n = 120 if tier == "quick" else 4000
     for _ in range(n):
@@ -113,12 +145,25 @@ def gen_conc(rng, tier):
         keys = G.index_keys(U)
         progs = []
         for _ in range(rng.randint(2, 5)):
-            if rng.random() < 0.5:
+            r = rng.random()
+            if r < 0.45:
                 progs.append(p_build(rng.randrange(len(U) + 1), rng.choice(G.PNS)))
-            else:
+            elif r < 0.93:
                 progs.append(p_find(rng.choice(keys) if keys and rng.random() < 0.8 else rng.choice(["Nope", XS + "int"])))
-        sched = [rng.randrange(len(progs)) for _ in range(rng.randint(0, 40))]
-        yield base(U, progs, sched, warm=rng.random() < 0.3)
+            else:
+                progs.append(P_RESET)
+        sched = [rng.randrange(len(progs)) for _ in range(rng.randint(0, 50))]
+        r = rng.random()
+        if r < 0.3:
+            yield base(U, progs, sched, warm=True)
+        elif r < 0.45:
+            yield base(U, progs, sched, mods=1, warm_mods=0)
+        else:
+            yield base(U, progs, sched)
+
+
+def start_kind(a):
+    return "cold" if a["warm_mods"] is None else ("warm" if a["warm_mods"] == a["mods"] else "stale")
 
 
 def classify_conc(a, o):
@@ -126,7 +171,8 @@ def classify_conc(a, o):
         return "harness-error"
     alone = alone_results(a)
     diff = sum(1 for x, y in zip(o["ok"]["results"], alone) if x != y)
-    return f"{'warm' if a['warm'] else 'cold'}|threads={len(a['progs'])}|{'all-as-alone' if diff == 0 else 'differs-from-alone'}"
+    rs = "|with-reset" if any(p["k"] == "reset" for p in a["progs"]) else ""
+    return f"{start_kind(a)}|threads={len(a['progs'])}{rs}|{'all-as-alone' if diff == 0 else 'differs-from-alone'}"
 
 
 _ALONE: dict[str, list] = {}
@@ -150,23 +196,17 @@ def alone_results(a):
 
 CORRS = [
     Corr("conc.run", gen_conc, impl_conc, nontrivial=lambda a, o: len(a["schedule"]) >= 2, classify=classify_conc,
-         describe="threads on one real XmlContext under a forced schedule (instrumented containers) vs the interleaved model: per-thread results and final cache/index/stamp"),
+         describe="threads on one real XmlContext under a forced schedule (instrumented containers / attribute assignments) vs the interleaved model: per-thread results and final cache/index/stamp"),
 ]
 
 
 # ------------------------------------------------------------------ oracles
-def _clearers(trace):
-    return sorted({tid for tid, name in trace if name == "xsi.clear"})
-
-
 def covered_conc(a, msg=""):
-    """C19-F1: two different threads entered the index rebuild (both executed
-    xsi_cache.clear()) in this execution.  C14-F1: two build threads request the
-    same namespace-less class under different parent namespaces."""
-    m = re.search(r"cleared the index: \[([0-9, ]*)\]", msg)
-    clearers = [x for x in (m.group(1).split(",") if m else []) if x.strip()]
-    if len(clearers) >= 2:
-        return "C19-F1"
+    """C19-F2: a thread calls reset() while other threads use the context.
+    C14-F1: two build threads request the same namespace-less class under
+    different parent namespaces."""
+    if any(p["k"] == "reset" for p in a["progs"]) and len(a["progs"]) >= 2:
+        return "C19-F2"
     seen = {}
     for p in a["progs"]:
         if p["k"] == "build" and p["c"] < len(a["universe"]) and not a["universe"][p["c"]]["has_ns"]:
@@ -175,12 +215,16 @@ def covered_conc(a, msg=""):
     return None
 
 
+def _publishers(trace):
+    return sorted({tid for tid, name in trace if name in ("xsi.publish", "xsi.clear")})
+
+
 def _compare(a, outs, trace, how):
     alone = alone_results(a)
     for i, (x, y) in enumerate(zip(outs, alone)):
         if x != y:
             return (f"thread {i} {json.dumps(a['progs'][i])} returned {json.dumps(x)[:150]} {how} but "
-                    f"{json.dumps(y)[:150]} when run alone [threads that cleared the index: {_clearers(trace)}]")
+                    f"{json.dumps(y)[:150]} when run alone [start={start_kind(a)}; threads that published/cleared the index: {_publishers(trace)}]")
     return None
 
 
@@ -246,7 +290,7 @@ def gen_free(rng, tier):
                 progs.append(p_build(rng.randrange(len(U)), rng.choice(G.PNS)))
             else:
                 progs.append(p_find(rng.choice(keys) if keys else "Nope"))
-        yield base(U, progs, [rng.randrange(100)], warm=rng.random() < 0.5)
+        yield base(U, progs, [rng.randrange(100)], warm=rng.random() < 0.4)
 
 
 ORACLES = [
@@ -256,9 +300,9 @@ ORACLES = [
 
 
 # ------------------------------------------------------------------ finding
-def finding_f1():
-    """The model's 2-thread schedule, on real XmlParser.from_string calls
-    without a target class (thread 0 = victim)."""
+def finding_f2():
+    """reset() racing with a class-less parse on a warm context (thread 0 =
+    victim) and with build (KeyError), under the model's schedules."""
     from xsdata.exceptions import ParserError
     from xsdata.formats.dataclass.parsers import XmlParser
 
@@ -266,44 +310,46 @@ def finding_f1():
     try:
         realm.set_world(1, 0)
         sch = Scheduler()
-        ctx = hooked_context(sch, realm.pkg)
+        ctx = hooked_context(sch, realm.pkg, warm=True)
         doc = '<ns0:PA xmlns:ns0="urn:a"><ns0:x>1</ns0:x></ns0:PA>'
-
-        def parse():
-            return XmlParser(context=ctx).from_string(doc)
-
-        res = sch.run([parse, parse], race_schedule(1))
+        res = sch.run([lambda: XmlParser(context=ctx).from_string(doc), ctx.reset], RESET_VS_LOOKUP)
         alone = XmlParser(context=realm.context()).from_string(doc)
         k0, v0 = res[0]
-        still = k0 == "err" and isinstance(v0, ParserError) and "No class found matching root" in str(v0) and type(alone).__name__ == "PA"
-        return still, f"thread0={k0}:{v0!r} thread1={res[1][0]}:{res[1][1]!r} alone={alone!r} trace={sch.trace[:12]}"
+        lookup = k0 == "err" and isinstance(v0, ParserError) and "No class found matching root" in str(v0) and type(alone).__name__ == "PA"
     finally:
         realm.close()
+    outs, _, _ = run_forced(base(U_ONE, [p_build(0), P_RESET, p_build(0)], RESET_VS_BUILD))
+    keyerr = outs[2] == {"err": "KeyError"}
+    return lookup and keyerr, f"parse thread={k0}:{v0!r} alone={alone!r}; build threads={json.dumps(outs)[:200]}"
 
 
-FINDINGS = {"C19-F1": finding_f1}
+FINDINGS = {"C19-F2": finding_f2}
 
 LEVEL_TEXT = (
-    "Lean proof over all schedules of the interleaved model (atomic step = one dict/list/slot operation, any number "
-    "of threads): build_race_benign (every concurrent build returns the cache-free metadata, the check-then-insert "
-    "race only duplicates work), xsi_lookup_warm (on a context whose type index is current every concurrent lookup "
-    "is correct), no thread ever reads a missing cache entry; the full linearizability of the lazily rebuilt type "
-    "index is refuted by a proved 2-thread schedule (xsi_race_counterexample) that is forced on the real code through "
-    "instrumented containers (known finding C19-F1). The model is tied to /repo by replaying all interleavings of "
-    "two threads (cold lookups, builds, mixed) and random schedules of up to five threads on the real XmlContext."
+    "Lean proof over all schedules of the interleaved model (atomic step = one dict/slot operation or attribute "
+    "assignment, xsi_cache as a reference into a heap of dict objects, any number of threads): "
+    "xsi_lookup_linearizable (after the repair 556b985 every concurrent find_types on a cold, stale or warm context "
+    "returns the cache-free answer: every published dict object is complete), build_race_benign (every concurrent "
+    "build returns the cache-free metadata, the check-then-insert race only duplicates work, no KeyError), "
+    "concurrent_safe_partial, thread_progress. What remains excluded is stated and refuted: reset() racing with "
+    "lookups or builds (reset_lookup_counterexample, reset_build_counterexample; forced on the real code, known "
+    "finding C19-F2). The model is tied to /repo by replaying all interleavings of two threads (cold/stale/warm "
+    "lookups, builds, reset, mixed) and random schedules of up to five threads on the real XmlContext."
 )
 LEVEL_NOTE = (
-    "Trusted: Lean kernel; the GIL makes each container operation atomic (no free-threaded build, no preemption "
-    "inside C code, no memory-model effects); find_types' returned list is treated as a value at the time of the "
-    "final read. Parser/serializer instances themselves (per-call state) and the match_namespace memo are not part "
-    "of the interleaved model; the free-running oracle exercises them on the real code only."
+    "Trusted: Lean kernel; the GIL makes each container operation and attribute assignment atomic (no free-threaded "
+    "build, no preemption inside C code, no memory-model effects); find_types' returned list is treated as a value "
+    "at the time of the final read. Classes/modules loaded during the concurrent phase, find_type_by_fields / "
+    "local_names_match threads, parser/serializer per-call state and the match_namespace memo are not part of the "
+    "interleaved model; the free-running oracle exercises them on the real code only."
 )
 TRUSTED = [
-    "harness/props/conclib.py: instrumented dict/defaultdict subclasses and a sys_modules property on a harness-side XmlContext subclass park threads at every shared operation; one release = one model step",
+    "harness/props/conclib.py: an instrumented dict (cache), properties over the xsi_cache / sys_modules slots of a harness-side XmlContext subclass (assignment parks; reading xsi_cache yields a parking view of the published dict object) and an is_binding_model override (thread-local step per binding class) park threads; one release = one model step",
     "threads that finish are skipped in the schedule; after the schedule the remaining threads run to completion in index order (same rule in model and harness)",
 ]
 ASSUMPTIONS = [
     "CPython with the GIL: one dict/list/slot operation is atomic",
     "the set of loaded classes and len(sys.modules) do not change during the concurrent phase",
+    "no thread calls reset() concurrently (otherwise C19-F2)",
 ]
-RULE = "hand-picked race schedules, then all interleavings of two threads for cold lookup x cold lookup (every 3rd in quick tier), build x build, build x lookup, warm lookups, then seeded random schedules of 2-5 threads over random universes"
+RULE = "hand-picked schedules (the pre-repair race on cold/stale/warm contexts, reset races), then all interleavings of two threads for cold lookup x cold lookup (every 3rd in quick tier; a sample on a stale context), build x build, build x lookup, warm lookups, reset x lookup, reset x build, then seeded random schedules of 2-5 threads over random universes"
